@@ -46,8 +46,24 @@ def c01(tier, seed):
     return res.finish()
 
 
-def mc_cfg(res, name, expect=None, timeout=900):
-    res.add_mc(name, core.tlc_mc("NutsMC", read_cfg(name + ".cfg"), timeout=timeout), expect_violation=expect)
+def cfg_with(name, inv=None, props=None, consts=None):
+    """spec/mc/<name>.cfg with its INVARIANTS / PROPERTIES lines and constants replaced."""
+    import re
+    cfg = read_cfg(name + ".cfg")
+    if inv is not None:
+        cfg = re.sub(r"(?m)^INVARIANTS .*$", "INVARIANTS " + " ".join(inv) if inv else "", cfg)
+    if props is not None:
+        cfg = re.sub(r"(?m)^PROPERTIES .*$", ("PROPERTIES " + " ".join(props)) if props else "", cfg)
+    for k, v in (consts or {}).items():
+        cfg, n = re.subn(r"(?m)^  %s (=|<-) .*$" % re.escape(k), "  %s %s" % (k, v), cfg)
+        if n != 1:
+            raise Infra("constant %s not found in %s" % (k, name))
+    return cfg
+
+
+def mc_cfg(res, name, expect=None, timeout=900, inv=None, props=None, consts=None, label=None):
+    cfg = cfg_with(name, inv, props, consts)
+    res.add_mc(label or name, core.tlc_mc("NutsMC", cfg, timeout=timeout), expect_violation=expect)
 
 
 def ds_check(pid, kind, fam, mc, tier, seed, gen_quick, gen_thorough, what):
@@ -101,7 +117,81 @@ def c07(tier, seed):
                     "sorted-set call result or resulting order differs from the (score,key) model")
 
 
-CHECKS = {"C01": c01, "C05": c05, "C06": c06, "C07": c07}
+def fam_shards(fams, seed, nseed, hist, steps):
+    out = []
+    for fam, extra in fams:
+        for s in seeds(seed, nseed):
+            out.append(["-family", fam, "-seed", str(s), "-hist", str(hist), "-steps", str(steps)] + extra)
+    return out
+
+
+def c08(tier, seed):
+    res = Result("C08", tier, seed)
+    core.build()
+    q = tier == "quick"
+    for name in ("NutsMC_kv", "NutsMC_ls", "NutsMC_st", "NutsMC_zs"):
+        mc_cfg(res, name, inv=["MCReopenInv", "TypeOK"], props=[], consts=None if q else {"MaxTx": "= 3"}, timeout=1800)
+    # the recorded deviations must be counterexamples of this invariant in the model
+    mc_cfg(res, "NutsMC_st", expect="MCReopenInv", inv=["MCReopenInv"], props=[], consts={"Dev": '= {"F-C06-2"}'}, label="NutsMC_st+F-C06-2")
+    mc_cfg(res, "NutsMC_kv", expect="MCReopenInv", inv=["MCReopenInv"], props=[], consts={"UniqueIds": "= FALSE"}, label="NutsMC_kv+duplicate-tx-ids")
+    fams = [("mixed", []), ("mixedkv", ["-mode", "keyval"]), ("mixedkv", ["-mode", "keyonly"])]
+    shards = fam_shards(fams, seed, 2 if q else 24, 3 if q else 4, 40 if q else 120)
+    rs = core.drive_and_validate(res, shards, core.dev_set(), "a read after Close/Open differs from the result before Close (or Open failed)",
+                                 "mixed histories over KV/list/set/zset with real and shadow reopens")
+    res.cov["samples"] = core.sample_events(rs[0]["trace"], 6, ops={"close", "open", "obs", "shadow"})
+    ops = res.extra.get("events_by_op", {})
+    res.cov["distinct_nontrivial"] = ops.get("open", 0) + ops.get("shadow", 0)
+    res.cov["rule"] = ("non-trivial = real Close/Open pairs plus shadow reopens (copy of the directory opened separately), each followed "
+                       "by a full observation of every bucket and structure that TLC compared with Replay(log) and with the pre-close state")
+    res.assumptions += ["lists/sets/sorted sets only in HintKeyValAndRAMIdxMode (README caveat); KV histories in both RAM modes; "
+                        "sparse mode is covered by C02"]
+    return res.finish()
+
+
+def c12(tier, seed):
+    res = Result("C12", tier, seed)
+    core.build()
+    q = tier == "quick"
+    for name in ("NutsMC_kv", "NutsMC_ls", "NutsMC_st", "NutsMC_zs"):
+        mc_cfg(res, name, inv=["TypeOK"], props=["NoEffect"], consts=None if q else {"MaxTx": "= 3"}, timeout=1800)
+    mc_cfg(res, "NutsMC_st", expect="NoEffect", inv=[], props=["NoEffect"], consts={"Dev": '= {"F-C06-2"}'}, label="NutsMC_st+F-C06-2")
+    fams = [("fail", []), ("failkv", ["-mode", "keyval"]), ("failkv", ["-mode", "keyonly"])]
+    shards = fam_shards(fams, seed, 2 if q else 24, 3 if q else 4, 40 if q else 120)
+    rs = core.drive_and_validate(res, shards, core.dev_set(), "a transaction that ended without a successful commit changed a read (now or after reopen)",
+                                 "histories with rollbacks, oversized entries, injected write/sync faults, read-only transactions calling mutators, calls on finished transactions")
+    res.cov["samples"] = core.sample_events(rs[0]["trace"], 6, ops={"commit", "rollback"})
+    ops = res.extra.get("events_by_op", {})
+    res.cov["distinct_nontrivial"] = ops.get("rollback", 0) + res.extra.get("nontrivial", {}).get("failed_commits", 0)
+    res.cov["rule"] = ("non-trivial = transactions that ended by Rollback or by a failing Commit; after each the following reads, full "
+                       "observations and shadow reopens are compared by TLC with the unchanged model state")
+    return res.finish()
+
+
+def c13(tier, seed):
+    res = Result("C13", tier, seed)
+    core.build()
+    q = tier == "quick"
+    for name in ("NutsMC_kv", "NutsMC_ls", "NutsMC_st", "NutsMC_zs"):
+        mc_cfg(res, name, inv=["TypeOK"], props=["SerialView", "SerialResults"], consts=None if q else {"MaxOps": "= 3"}, timeout=1800)
+    mc_cfg(res, "NutsMC_ls", expect="SerialResults", inv=[], props=["SerialResults"], consts={"Dev": '= {"F-C13-1"}'}, label="NutsMC_ls+F-C13-1")
+    shards = []
+    ntr = 0
+    for kind, ov in (("list", {}), ("set", {"GVals": '= {"a", ""}'}), ("zset", {"GVals": '= {"v"}', "GKeys": "<- GKeys2", "MaxLen": "= 2", "GLim": "= 1", "GRadius": "= 1"})):
+        path, g, n = core.gen_transitions("DsGen_%s.cfg" % kind, ov)
+        res.add_mc("DsGen_%s" % kind, g)
+        ntr += n
+        shards.append(["@replay", "-in", path, "-mode", "intx", "-sample", "4000" if q else "60000", "-seed", str(seed)])
+    shards += fam_shards([("intx", [])], seed, 2 if q else 24, 3 if q else 4, 40 if q else 120)
+    rs = core.drive_and_validate(res, shards, core.dev_set(), "a result inside a write transaction (or the state it leaves) is not explained by running its operations in order on its start state",
+                                 "two-operation transactions enumerated by TLC (DsGen) + random multi-operation transactions with reads and pops in between")
+    res.cov["samples"] = core.sample_events(rs[-1]["trace"], 8, ops=None)
+    res.cov["distinct_nontrivial"] = sum(r["summary"].get("executed", 0) for r in rs) // 2
+    res.cov["rule"] = ("non-trivial = two-operation write transactions (first a mutating call, then any call on the same structure) "
+                       "executed on the real library; TLC evaluates the second call on start state + first call")
+    return res.finish()
+
+
+CHECKS = {"C01": c01, "C05": c05, "C06": c06, "C07": c07, "C08": c08, "C12": c12, "C13": c13}
 
 
 def main(argv):
